@@ -4,7 +4,7 @@ import random
 import numpy as np
 from common import *
 
-PRELUDE_T = "From MV Require Import Vec Cplx Mat Hop Hopper Propagate Traj Cumulative R02 RTraj.\n"
+PRELUDE_T = "From MV Require Import Vec Cplx Mat Hop Hopper Propagate Traj Cumulative Afssh R02 RTraj.\n"
 SETUPS = [("simple", [-2.0], (6.0, 14.0)), ("dual", [-3.0], (12.0, 30.0)), ("extended", [-3.0], (4.0, 12.0)), ("super", [-3.0], (5.0, 12.0)),
           ("modelx", [-8.5], (8.0, 14.0)), ("vibronic", [0.1, -0.2, 0.15, 0.05, 0.3], None), ("modelw", [-0.6], (15.0, 30.0))]
 
@@ -14,8 +14,9 @@ def elec_lit(e, n, nd):
     return tup(flss(H), lst([lst([fls(tau[i, j]) for j in range(n)]) for i in range(n)]), flss(F))
 
 
-def collect(res, rng, nruns, max_cases, kind="sh"):
-    """kind: 'sh' TrajectorySH -> caseT; 'eh' Ehrenfest -> caseE; 'cum' TrajectoryCum -> caseC"""
+def collect(res, rng, nruns, max_cases, kind="sh", integ="exp"):
+    """kind: 'sh' TrajectorySH -> caseT; 'eh' Ehrenfest -> caseE; 'cum' TrajectoryCum -> caseC.
+    integ 'rk4' (kind 'sh' only): electronic_integration='linear-rk4', the eigh answer recorded is that of the previous Hamiltonian (caseT for chkTr)"""
     import mudslide, copy
     from mudslide.models import scattering_models as M
     cases, meta = [], []
@@ -32,6 +33,8 @@ def collect(res, rng, nruns, max_cases, kind="sh"):
             zl = [rng.choice([rng.random() * 0.02, rng.random() * 0.002, rng.random() * 0.3]) for _ in range(rng.choice([1, 30, 30]))]
         cls = dict(sh=mudslide.TrajectorySH, eh=mudslide.Ehrenfest, cum=mudslide.TrajectoryCum)[kind]
         kw = dict(hopping_probability="poisson" if pois else "tully") if kind == "sh" else {}
+        if integ == "rk4":
+            kw["electronic_integration"] = "linear-rk4"; dt = rng.choice([0.5, 1.0, 2.0]) if nd == 1 else 1.0
         if kind == "cum" and rng.random() < 0.5:
             kw = dict(hopping_probability="poisson")       # the option belongs to plain FSSH; the cumulative class accumulates the unscaled rates either way
         a0 = rng.randrange(n) if rng.random() < 0.4 else 0
@@ -55,6 +58,8 @@ def collect(res, rng, nruns, max_cases, kind="sh"):
             ap(le, te)
         def propagate_electronics(le, te, dt_):
             W = tr.hamiltonian_propagator(le, te); lam, Cm = np.linalg.eigh(W)
+            if integ == "rk4":
+                lam, Cr = np.linalg.eigh(le.hamiltonian()); Cm = Cr.astype(complex)
             rec.update(e1=te, W=W, lam=lam, C=Cm)
             pe(le, te, dt_)
         def continue_simulating():
@@ -103,11 +108,90 @@ def collect(res, rng, nruns, max_cases, kind="sh"):
                 cases.append(tup(*(common_ + els + [tup(fl(pc), fl(zc), fls(zlc), fls(st)),
                                                     tup(fls(x1), fls(v1), cxss(rho1), nat(a1), fl(t1), fl(hop)), tup(fl(pc1), fl(zc1), fls(zlc1))])))
             meta.append(dict(model=mname, step=i, dt=dt, poisson=pois, zeta=s_["zeta"], hopped=bool(a != a1)))
-            tag = dict(sh="fullstep", eh="fullstep-ehrenfest", cum="fullstep-cumulative")[kind]
+            tag = dict(sh="fullstep", eh="fullstep-ehrenfest", cum="fullstep-cumulative")[kind] + ("-rk4" if integ == "rk4" else "")
             res.count(tag + "/" + ("hop" if a != a1 else "no-hop")); res.count(tag + "-model/" + mname)
             if kind == "cum" and s_["cum"][1] != s_["cum_after"][1]:
                 res.count(tag + "/attempt")
             res.case((tag, mname, it, i), True)
+            if len(cases) >= max_cases:
+                return cases, meta
+    return cases, meta
+
+
+# ---------------------------------------------------------------- A-FSSH passes (Model/Traj.step_af, Run/RTraj.chkA)
+AF_SETUPS = [("simple", [-2.0], (6.0, 14.0), 5.0), ("dual", [-3.0], (12.0, 30.0), 5.0), ("extended", [-3.0], (4.0, 12.0), 5.0), ("subotnik2d", [-3.0, 0.4], None, 4.0)]
+
+
+def collect_af(res, rng, nruns, max_cases):
+    import mudslide, copy, sys
+    from mudslide.models import scattering_models as M
+    S_ = sys.modules['mudslide.models.scattering_models']
+    cases, meta = [], []
+    for it in range(nruns):
+        mname, x0, kr, dt = AF_SETUPS[it % len(AF_SETUPS)]
+        model = S_.Subotnik2D() if mname == "subotnik2d" else M[mname]()
+        n = model.nstates(); nd = model.ndim()
+        p0 = [rng.uniform(*kr)] if kr else [rng.uniform(10.0, 16.0), rng.uniform(-2.0, 2.0)]
+        nsteps = rng.randint(25, 60); pois = rng.random() < 0.3
+        zl = [rng.choice([2.0, 2.0, rng.random() * 0.05, 10 ** rng.uniform(-6, -2), rng.random()]) for _ in range(nsteps + 5)]
+        tr = mudslide.AugmentedFSSH(model, x0, p0, rng.randrange(n) if rng.random() < 0.4 else 0, dt=dt, max_steps=nsteps, zeta_list=list(zl),
+                                    hopping_probability="poisson" if pois else "tully", seed_sequence=rng.randrange(2 ** 31))
+        rec, steps = {}, []
+        ap, pe, cs, gc = tr.advance_position, tr.propagate_electronics, tr.continue_simulating, tr.gamma_collapse
+        def advance_position(le, te):
+            rec.clear()
+            Wp = tr.hamiltonian_propagator(le, te); epsR, coR = np.linalg.eigh(Wp)
+            rec.update(before=(tr.position.copy(), tr.velocity.copy(), tr.rho.copy(), int(tr.state), float(tr.time)), lastv=tr.last_velocity.copy(),
+                       dR=tr.delR.copy(), dP=tr.delP.copy(), eprev=(le if le is not None else te), e0=te, epsR=epsR, coR=coR,
+                       zeta=tr.zeta_list[0] if tr.zeta_list else None, etas=copy.deepcopy(tr.random_state).random(n + 1).tolist(),
+                       ncoll=len(tr.tracer.events.get("collapse", [])))
+            ap(le, te)
+        def propagate_electronics(le, te, dt_):
+            W = tr.hamiltonian_propagator(le, te); lam, Cm = np.linalg.eigh(W)
+            rec.update(e1=te, W=W, lam=lam, C=Cm, fm1=np.array(te.force_matrix()).copy())
+            pe(le, te, dt_)
+        def gamma_collapse(el):
+            g = gc(el); rec["gamma"] = np.array(g).copy(); return g
+        def continue_simulating():
+            out = cs()
+            if "e1" in rec and "before" in rec and rec.get("zeta") is not None:
+                rec["after"] = (tr.position.copy(), tr.velocity.copy(), tr.rho.copy(), int(tr.state), float(tr.time))
+                rec["dR1"], rec["dP1"] = tr.delR.copy(), tr.delP.copy()
+                rec["coll"] = len(tr.tracer.events.get("collapse", [])) > rec["ncoll"]
+                steps.append(dict(rec)); rec.clear()
+            return out
+        tr.advance_position, tr.propagate_electronics, tr.continue_simulating, tr.gamma_collapse = advance_position, propagate_electronics, continue_simulating, gamma_collapse
+        try:
+            tr.simulate()
+        except AssertionError:
+            pass
+        hopsteps = [i for i, s_ in enumerate(steps) if s_["before"][3] != s_["after"][3]]
+        collsteps = [i for i, s_ in enumerate(steps) if s_["coll"]]
+        picks = sorted(set([0, 1] + rng.sample(range(len(steps)), min(len(steps), 5)) + hopsteps[:3] + collsteps[:2])) if steps else []
+        for i in picks:
+            if i >= len(steps): continue
+            s_ = steps[i]
+            (x, v, rho, a, t), (x1, v1, rho1, a1, t1) = s_["before"], s_["after"]
+            g = 2.0 * np.imag(np.conj(0) + 0)  # placeholder to keep names local
+            rho_p = s_["C"] @ np.diag(np.exp(-1j * s_["lam"] * dt)) @ s_["C"].conj().T @ rho @ s_["C"] @ np.diag(np.exp(1j * s_["lam"] * dt)) @ s_["C"].conj().T
+            gk = 2.0 * np.imag(rho_p[a, :] * s_["W"][:, a]) * dt / np.real(rho_p[a, a]); gk[a] = 0.0; gk = np.maximum(gk, 0.0)
+            cs_ = np.cumsum(gk)
+            if cs_[-1] > 0 and np.min(np.abs(cs_ - s_["zeta"])) < 1e-9 * max(cs_[-1], 1e-30):
+                res.knife_edge += 1; continue
+            gam = s_.get("gamma")
+            if gam is not None:
+                es = [e for j, e in zip([j for j in range(n) if j != a1], s_["etas"])]
+                if any(abs(e - gam[j]) < 1e-9 for j, e in zip([j for j in range(n) if j != a1], es)):
+                    res.knife_edge += 1; continue
+            el = lambda e: elec_lit(e, n, nd)
+            cases.append(tup(nat(n), fls(model.mass), fl(dt), bl(pois), fl(s_["zeta"]), el(s_["eprev"]), el(s_["e0"]), el(s_["e1"]),
+                             lst([flss(s_["fm1"][:, :, xd]) for xd in range(nd)]), tup(fls(s_["epsR"]), cxss(s_["coR"])), tup(fls(s_["lam"]), cxss(s_["C"])), fls(s_["etas"]),
+                             tup(tup(fls(x), fls(v), cxss(rho), nat(a), fl(t)), fls(s_["lastv"]), lst([cxss(s_["dR"][xd]) for xd in range(nd)]), lst([cxss(s_["dP"][xd]) for xd in range(nd)])),
+                             tup(tup(fls(x1), fls(v1), cxss(rho1), nat(a1), fl(t1)), lst([cxss(s_["dR1"][xd]) for xd in range(nd)]), lst([cxss(s_["dP1"][xd]) for xd in range(nd)]), bl(s_["coll"]))))
+            meta.append(dict(model=mname, step=i, dt=dt, poisson=pois, zeta=s_["zeta"], hopped=bool(a != a1), collapsed=bool(s_["coll"])))
+            res.count("fullstep-afssh/" + ("hop" if a != a1 else "no-hop")); res.count("fullstep-afssh-model/" + mname)
+            if s_["coll"]: res.count("fullstep-afssh/collapse")
+            res.case(("fullstep-afssh", mname, it, i), True)
             if len(cases) >= max_cases:
                 return cases, meta
     return cases, meta
